@@ -392,6 +392,90 @@ proof fn lemma_rm_edge_in_range<S: State>(rm: Seq<Node<S>>, i: int, k: int)
 { reveal(rm_graph); assert(rm_e(rm, i, k) == rm[i].edges@[k] as int); }
 '''
 
+VOCAB += r'''
+// ---- query completeness (C18): NoSolutionFound only if no goal milestone is reachable from a start connection
+spec fn start_conn<S: State, SP: StateSpace<StateType = S>>(rm: Seq<Node<S>>, sp: &SP, vc: &dyn StateValidityChecker<S>, start: &S, radius: f64, i: int) -> bool {
+    0 <= i < rm.len() && flt(sp.dist_spec(start, &rm[i].state), radius) && motion_checked(sp, vc, start, &rm[i].state)
+}
+/// a walk on the roadmap that begins at a milestone the start connects to
+spec fn q_walk<S: State, SP: StateSpace<StateType = S>>(rm: Seq<Node<S>>, sp: &SP, vc: &dyn StateValidityChecker<S>, start: &S, radius: f64, w: Seq<int>) -> bool {
+    &&& w.len() >= 1
+    &&& start_conn(rm, sp, vc, start, radius, w[0])
+    &&& forall|k: int| 0 <= k < w.len() ==> 0 <= (#[trigger] w[k]) < rm.len()
+    &&& forall|k: int| #![trigger w[k]] 0 <= k < w.len() - 1 ==> rm[w[k]].edges@.contains(w[k + 1] as usize)
+}
+/// no goal milestone is reachable
+spec fn no_reachable_goal<S: State, SP: StateSpace<StateType = S>, G: Goal<S>>(rm: Seq<Node<S>>, sp: &SP, vc: &dyn StateValidityChecker<S>, start: &S, radius: f64, goal: &G) -> bool {
+    forall|w: Seq<int>| #[trigger] q_walk(rm, sp, vc, start, radius, w) ==> !goal.sat(&rm[w[w.len() - 1]].state)
+}
+/// BFS bookkeeping: every finished node is not a goal and all its neighbours are visited
+#[verifier::opaque]
+spec fn bfs_done_ok<S: State, G: Goal<S>>(rm: Seq<Node<S>>, goal: &G, visited: Seq<bool>, done: Set<int>) -> bool {
+    forall|i: int| #[trigger] done.contains(i) ==> {
+        &&& 0 <= i < rm.len()
+        &&& !goal.sat(&rm[i].state)
+        &&& forall|k: int| 0 <= k < rm[i].edges@.len() ==> 0 <= (#[trigger] rm[i].edges@[k]) < visited.len() && visited[rm[i].edges@[k] as int]
+    }
+}
+proof fn lemma_done_empty<S: State, G: Goal<S>>(rm: Seq<Node<S>>, goal: &G, visited: Seq<bool>)
+    ensures bfs_done_ok(rm, goal, visited, Set::<int>::empty())
+{ reveal(bfs_done_ok); }
+/// marking one more index visited keeps the bookkeeping
+proof fn lemma_done_mark<S: State, G: Goal<S>>(rm: Seq<Node<S>>, goal: &G, v0: Seq<bool>, v1: Seq<bool>, done: Set<int>, j: int)
+    requires bfs_done_ok(rm, goal, v0, done), 0 <= j < v0.len(), v1 =~= v0.update(j, true)
+    ensures bfs_done_ok(rm, goal, v1, done)
+{
+    reveal(bfs_done_ok);
+    assert forall|i: int| #[trigger] done.contains(i) implies {
+        &&& 0 <= i < rm.len()
+        &&& !goal.sat(&rm[i].state)
+        &&& forall|k: int| 0 <= k < rm[i].edges@.len() ==> 0 <= (#[trigger] rm[i].edges@[k]) < v1.len() && v1[rm[i].edges@[k] as int]
+    } by {
+        assert forall|k: int| 0 <= k < rm[i].edges@.len() implies 0 <= (#[trigger] rm[i].edges@[k]) < v1.len() && v1[rm[i].edges@[k] as int] by {
+            assert(v0[rm[i].edges@[k] as int]);
+        }
+    }
+}
+/// a node whose neighbours are all visited and which is not a goal can be finished
+proof fn lemma_done_add<S: State, G: Goal<S>>(rm: Seq<Node<S>>, goal: &G, visited: Seq<bool>, done: Set<int>, c: int)
+    requires bfs_done_ok(rm, goal, visited, done), 0 <= c < rm.len(), !goal.sat(&rm[c].state),
+        forall|k: int| 0 <= k < rm[c].edges@.len() ==> 0 <= (#[trigger] rm[c].edges@[k]) < visited.len() && visited[rm[c].edges@[k] as int]
+    ensures bfs_done_ok(rm, goal, visited, done.insert(c))
+{ reveal(bfs_done_ok); }
+/// when every visited node is finished and every start connection is visited, the visited set contains every walk
+proof fn lemma_bfs_complete<S: State, SP: StateSpace<StateType = S>, G: Goal<S>>(rm: Seq<Node<S>>, sp: &SP, vc: &dyn StateValidityChecker<S>, start: &S, radius: f64, goal: &G,
+        visited: Seq<bool>, done: Set<int>)
+    requires bfs_done_ok(rm, goal, visited, done), visited.len() == rm.len(), rm.len() <= usize::MAX,
+        forall|i: int| 0 <= i < rm.len() && start_conn(rm, sp, vc, start, radius, i) ==> #[trigger] visited[i],
+        forall|i: int| 0 <= i < rm.len() && #[trigger] visited[i] ==> done.contains(i),
+    ensures no_reachable_goal(rm, sp, vc, start, radius, goal)
+{
+    reveal(bfs_done_ok);
+    assert forall|w: Seq<int>| #[trigger] q_walk(rm, sp, vc, start, radius, w) implies !goal.sat(&rm[w[w.len() - 1]].state) by {
+        lemma_walk_visited(rm, sp, vc, start, radius, goal, visited, done, w, w.len() - 1);
+    }
+}
+proof fn lemma_walk_visited<S: State, SP: StateSpace<StateType = S>, G: Goal<S>>(rm: Seq<Node<S>>, sp: &SP, vc: &dyn StateValidityChecker<S>, start: &S, radius: f64, goal: &G,
+        visited: Seq<bool>, done: Set<int>, w: Seq<int>, k: int)
+    requires bfs_done_ok(rm, goal, visited, done), visited.len() == rm.len(), rm.len() <= usize::MAX, q_walk(rm, sp, vc, start, radius, w), 0 <= k < w.len(),
+        forall|i: int| 0 <= i < rm.len() && start_conn(rm, sp, vc, start, radius, i) ==> #[trigger] visited[i],
+        forall|i: int| 0 <= i < rm.len() && #[trigger] visited[i] ==> done.contains(i),
+    ensures visited[w[k]], done.contains(w[k]), !goal.sat(&rm[w[k]].state)
+    decreases k
+{
+    reveal(bfs_done_ok);
+    if k == 0 {
+        assert(visited[w[0]]);
+    } else {
+        lemma_walk_visited(rm, sp, vc, start, radius, goal, visited, done, w, k - 1);
+        let a = w[k - 1];
+        assert(rm[a].edges@.contains(w[k] as usize));
+        let kk = choose|kk: int| 0 <= kk < rm[a].edges@.len() && rm[a].edges@[kk] == w[k] as usize;
+        assert(visited[rm[a].edges@[kk] as int]);
+    }
+}
+'''
+
 ann('top', '', VOCAB, 'prm.vocab')
 for g in ('S', 'SP', 'G'):
     ann('struct PRM', 'attr', '#[verifier::reject_recursive_types(%s)]' % g, 'prm.attr.' + g)
@@ -421,6 +505,9 @@ ann('impl#1', 'impl-start', r'''
     }
     pub closed spec fn in_bounds_inv(&self) -> bool {
         self.problem_def is Some ==> rm_in_bounds(self.roadmap@, &*self.cur_pd().space)
+    }
+    pub closed spec fn no_goal_reachable(&self) -> bool {
+        no_reachable_goal(self.roadmap@, &*self.cur_pd().space, &*self.cur_vc(), &self.cur_pd().start_states@[0], self.connection_radius, &*self.cur_pd().goal)
     }
     pub closed spec fn sp_radius(&self) -> f64 { self.connection_radius }
     pub closed spec fn sp_timeout(&self) -> f64 { self.timeout }
@@ -723,6 +810,8 @@ ann('fn solve', 'sig', r"""
             r is Err ==> (r->Err_0 is Timeout || r->Err_0 is NoSolutionFound || r->Err_0 is InvalidStartState || r->Err_0 is UnsampledStateSpace || r->Err_0 is PlannerUninitialised),   //@ result_domain [C06]
             final(self).roadmap_states() == old(self).roadmap_states(), final(self).roadmap_adj() == old(self).roadmap_adj(),   //@ roadmap_frame [C18]
             final(self).sp_radius() == old(self).sp_radius(), final(self).sp_timeout() == old(self).sp_timeout(),
+            // C18 query completeness: NoSolutionFound only if no milestone satisfying the goal is reachable from a start connection
+            (old(self).p_is_setup() && r == Err::<Path<S>, PlanningError>(PlanningError::NoSolutionFound)) ==> old(self).no_goal_reachable(),   //@ complete [C18]
             (old(self).p_is_setup() && metric_ok(&*old(self).p_pd().space) && old(self).p_edges_le(old(self).p_step_limit())) ==> {
                 r is Ok ==> forall|k: int| #![trigger r->Ok_0.0[k]] 0 <= k < r->Ok_0.0.len() - 1 ==>
                         rv(old(self).p_pd().space.dist_spec(&r->Ok_0.0[k], &r->Ok_0.0[k + 1])) <= old(self).p_step_limit()     //@ path_step [C05]
@@ -747,8 +836,18 @@ ann('fn solve', 'loop for#1', r"""
                 start_state == &pd.start_states@[0],
                 0 <= i <= self.roadmap@.len(),
                 sc_ok(start_connections@, self.roadmap@, &*pd.space, &**vc, start_state, self.connection_radius, i as int),   //@ start_connection_checked [C03,C05,C18]
+                forall|j: int| 0 <= j < i && start_conn(self.roadmap@, &*pd.space, &**vc, start_state, self.connection_radius, j) ==> start_connections@.contains(j as usize),   //@ start_connections_complete [C18]
                 <f64 as PartialOrdSpec<f64>>::obeys_partial_cmp_spec(),
 """, 'prm.solve.sc.loop', tags=['C03', 'C05', 'C18'])
+ann('fn solve', 'loop-body-start for#1', 'let ghost g_sc0 = start_connections@;', 'prm.solve.sc.ghost')
+ann('fn solve', 'loop-end for#1', r"""
+            proof {
+                assert forall|j: int| 0 <= j < i + 1 && start_conn(self.roadmap@, &*pd.space, &**vc, start_state, self.connection_radius, j) implies start_connections@.contains(j as usize) by {
+                    if j < i { let w = choose|w: int| 0 <= w < g_sc0.len() && g_sc0[w] == j as usize; assert(start_connections@[w] == j as usize); }
+                    else { assert(start_connections@[start_connections@.len() - 1] == i); }
+                }
+            }
+""", 'prm.solve.sc.step', tags=['C18'])
 ann('fn solve', 'loop for#2', r"""
             invariant
                 *self == *old(self), self.wf(), self.valid_inv(), self.checked_inv(), self.rng_ok(), self.is_setup(),
@@ -759,12 +858,36 @@ ann('fn solve', 'loop for#2', r"""
                 0 <= i <= self.roadmap@.len(),
                 sc_ok(start_connections@, self.roadmap@, &*pd.space, &**vc, start_state, self.connection_radius, self.roadmap@.len() as int),
                 forall|k: int| 0 <= k < goal_indices@.len() ==> 0 <= (#[trigger] goal_indices@[k]) < i && goal.sat(&self.roadmap@[goal_indices@[k] as int].state),   //@ goal_indices_sat [C02,C18]
+                forall|j: int| 0 <= j < i && goal.sat(&(#[trigger] self.roadmap@[j]).state) ==> goal_indices@.contains(j as usize),   //@ goal_indices_complete [C18]
+                forall|j: int| 0 <= j < self.roadmap@.len() && start_conn(self.roadmap@, &*pd.space, &**vc, start_state, self.connection_radius, j) ==> start_connections@.contains(j as usize),
 """, 'prm.solve.goal.loop', tags=['C02', 'C18'])
+ann('fn solve', 'loop-body-start for#2', 'let ghost g_gi0 = goal_indices@;', 'prm.solve.goal.ghost')
+ann('fn solve', 'loop-end for#2', r"""
+            proof {
+                assert forall|j: int| 0 <= j < i + 1 && goal.sat(&(#[trigger] self.roadmap@[j]).state) implies goal_indices@.contains(j as usize) by {
+                    if j < i { let w = choose|w: int| 0 <= w < g_gi0.len() && g_gi0[w] == j as usize; assert(goal_indices@[w] == j as usize); }
+                    else { assert(goal_indices@[goal_indices@.len() - 1] == i); }
+                }
+            }
+""", 'prm.solve.goal.step', tags=['C18'])
+ann('fn solve', 'before /if start_connections\.is_empty\(\) \|\| goal_indices\.is_empty\(\) \{/', r"""
+        proof {
+            // an empty list of start connections / goal milestones means no walk / no goal milestone at all
+            if start_connections@.len() == 0 || goal_indices@.len() == 0 {
+                assert forall|w: Seq<int>| #[trigger] q_walk(self.roadmap@, &*pd.space, &**vc, start_state, self.connection_radius, w) implies !goal.sat(&self.roadmap@[w[w.len() - 1]].state) by {
+                    if start_connections@.len() == 0 { assert(start_connections@.contains(w[0] as usize)); }
+                    else if goal.sat(&self.roadmap@[w[w.len() - 1]].state) { assert(goal_indices@.contains(w[w.len() - 1] as usize)); }
+                }
+            }
+        }
+""", 'prm.solve.early_exit', tags=['C18'])
 ann('fn solve', 'before /let mut goal_reached = None;/', r"""
         proof { assert(g_seeded); }
 """, 'prm.solve.seeded')
 ann('fn solve', 'after /let mut visited = vec_of_false\(self\.roadmap\.len\(\)\);/', r"""
         let ghost mut g_depth: Map<usize, nat> = Map::<usize, nat>::empty();
+        let ghost mut g_done: Set<int> = Set::<int>::empty();
+        let ghost mut g_qhead: Seq<usize> = Seq::<usize>::empty();
         let ghost g_seeded = true;
         proof { lemma_pm_empty(self.roadmap@, start_connections@); }
 """, 'prm.solve.bfs.ghost')
@@ -782,6 +905,10 @@ ann('fn solve', 'loop while#1', r"""
                 pd == self.problem_def->Some_0, vc == self.validity_checker->Some_0, goal == &pd.goal,
                 forall|k: int| 0 <= k < queue@.len() ==> start_connections@.contains(#[trigger] queue@[k]),
                 forall|k: int| 0 <= k < idx__k ==> parent_map@.contains_key(#[trigger] start_connections@[k]),
+                forall|k: int| 0 <= k < start_connections@.len() ==> queue@.contains(#[trigger] start_connections@[k]),
+                forall|i: int| 0 <= i < visited@.len() && #[trigger] visited@[i] ==> start_connections@.contains(i as usize),
+                forall|j: int| 0 <= j < self.roadmap@.len() && start_conn(self.roadmap@, &*pd.space, &**vc, start_state, self.connection_radius, j) ==> start_connections@.contains(j as usize),
+                forall|j: int| 0 <= j < self.roadmap@.len() && goal.sat(&(#[trigger] self.roadmap@[j]).state) ==> goal_indices@.contains(j as usize),
                 forall|k: int| 0 <= k < goal_indices@.len() ==> 0 <= (#[trigger] goal_indices@[k]) < self.roadmap@.len() && goal.sat(&self.roadmap@[goal_indices@[k] as int].state),
             decreases start_connections@.len() - idx__k,
 """, 'prm.solve.seed.loop', tags=['C18'])
@@ -800,11 +927,16 @@ ann('fn solve', 'loop-end while#1', r"""
                 assert forall|k: int| 0 <= k < queue@.len() implies start_connections@.contains(#[trigger] queue@[k]) by {
                     if k < g_q0.len() { assert(queue@[k] == g_q0[k]); }
                 }
+                assert forall|k: int| 0 <= k < start_connections@.len() implies queue@.contains(#[trigger] start_connections@[k]) by {
+                    let w = choose|w: int| 0 <= w < g_q0.len() && g_q0[w] == start_connections@[k];
+                    assert(queue@[w] == start_connections@[k]);
+                }
             }
 """, 'prm.solve.seed.end')
 ann('fn solve', 'before /let mut idx__k: usize = 0; while idx__k < start_connections\.len\(\)/', r"""
         proof {
             assert forall|k: int| 0 <= k < queue@.len() implies start_connections@.contains(#[trigger] queue@[k]) by { assert(queue@[k] == start_connections@[k]); }
+            assert forall|k: int| 0 <= k < start_connections@.len() implies queue@.contains(#[trigger] start_connections@[k]) by { assert(queue@[k] == start_connections@[k]); }
         }
 """, 'prm.solve.seed.pre')
 ann('fn solve', 'loop-after while#1', r"""
@@ -813,11 +945,24 @@ ann('fn solve', 'loop-after while#1', r"""
                 let w = choose|w: int| 0 <= w < start_connections@.len() && start_connections@[w] == queue@[k];
                 assert(parent_map@.contains_key(start_connections@[w]));
             }
+            lemma_done_empty(self.roadmap@, &**goal, visited@);
+            g_qhead = queue@;
+            // every start connection is visited, every visited index is in the queue
+            assert forall|k: int| 0 <= k < start_connections@.len() implies visited@[(#[trigger] start_connections@[k]) as int] by {
+                assert(parent_map@.contains_key(start_connections@[k]));
+            }
+            assert forall|i: int| 0 <= i < visited@.len() && #[trigger] visited@[i] implies queue@.contains(i as usize) || g_done.contains(i) by {
+                let w = choose|w: int| 0 <= w < start_connections@.len() && start_connections@[w] == i as usize;
+                assert(queue@.contains(start_connections@[w]));
+            }
         }
 """, 'prm.solve.seed.after')
 ann('fn solve', 'loop while#2', r"""
             invariant_except_break
                 goal_reached is None,
+                g_qhead == queue@,
+                forall|i: int| 0 <= i < visited@.len() && #[trigger] visited@[i] ==> queue@.contains(i as usize) || g_done.contains(i),   //@ bfs_frontier [C18]
+                bfs_done_ok(self.roadmap@, &**goal, visited@, g_done),                                              //@ bfs_finished [C18]
             invariant
                 *self == *old(self), self.wf(), self.valid_inv(), self.checked_inv(), self.rng_ok(), self.is_setup(),
                 self.roadmap@.len() > 0, start_state == &pd.start_states@[0], pd.start_states@.len() >= 1, vc.valid(start_state),
@@ -831,7 +976,36 @@ ann('fn solve', 'loop while#2', r"""
                 forall|k: int| 0 <= k < goal_indices@.len() ==> 0 <= (#[trigger] goal_indices@[k]) < self.roadmap@.len() && goal.sat(&self.roadmap@[goal_indices@[k] as int].state),
                 goal_reached is Some ==> parent_map@.contains_key(goal_reached->Some_0) && (goal_reached->Some_0 as int) < self.roadmap@.len()
                     && goal.sat(&self.roadmap@[goal_reached->Some_0 as int].state),                               //@ goal_reached_sat [C02,C18]
+                // completeness bookkeeping: visited = in the queue or finished; finished nodes are no goals and have all neighbours visited
+                forall|k: int| 0 <= k < start_connections@.len() ==> visited@[(#[trigger] start_connections@[k]) as int],
+                forall|j: int| 0 <= j < self.roadmap@.len() && start_conn(self.roadmap@, &*pd.space, &**vc, start_state, self.connection_radius, j) ==> start_connections@.contains(j as usize),
+                forall|j: int| 0 <= j < self.roadmap@.len() && goal.sat(&(#[trigger] self.roadmap@[j]).state) ==> goal_indices@.contains(j as usize),
+            ensures
+                goal_reached is None ==> queue@.len() == 0,
+                goal_reached is None ==> bfs_done_ok(self.roadmap@, &**goal, visited@, g_done),
+                goal_reached is None ==> forall|i: int| 0 <= i < visited@.len() && #[trigger] visited@[i] ==> queue@.contains(i as usize) || g_done.contains(i),
 """, 'prm.solve.bfs.loop', tags=['C02', 'C18'])
+ann('fn solve', 'loop-body-start while#2', r"""
+            proof {
+                // everything that was in the queue before the pop is still in it, except possibly current_idx
+                assert(current_idx == g_qhead[0] && queue@ =~= g_qhead.subrange(1, g_qhead.len() as int));
+                assert forall|i: int| 0 <= i < visited@.len() && #[trigger] visited@[i] implies queue@.contains(i as usize) || g_done.contains(i) || i == current_idx as int by {
+                    if !g_done.contains(i) {
+                        let w = choose|w: int| 0 <= w < g_qhead.len() && g_qhead[w] == i as usize;
+                        if w > 0 { assert(queue@[w - 1] == i as usize); }
+                    }
+                }
+            }
+""", 'prm.solve.bfs.body', tags=['C18'])
+ann('fn solve', 'loop-end while#2', r"""
+            proof {
+                // current_idx is finished: it is not a goal milestone and all its neighbours are visited
+                if !goal_indices@.contains(current_idx) && goal.sat(&self.roadmap@[current_idx as int].state) { assert(goal_indices@.contains(current_idx as int as usize)); }
+                lemma_done_add(self.roadmap@, &**goal, visited@, g_done, current_idx as int);
+                g_done = g_done.insert(current_idx as int);
+                g_qhead = queue@;
+            }
+""", 'prm.solve.bfs.finish', tags=['C18'])
 ann('fn solve', 'after /if elapsed__v > timeout \{[^}]*\}/', r"""
             proof { ax_duration_obeys(); assert(!elapsed__v.is_gt(&timeout));          //@ deadline_exit [C06]
             }
@@ -856,10 +1030,15 @@ ann('fn solve', 'loop while#3', r"""
                     forall|i: int| 0 <= i < visited@.len() ==> (#[trigger] visited@[i] <==> parent_map@.contains_key(i as usize)),
                     forall|k: int| 0 <= k < queue@.len() ==> (#[trigger] queue@[k] as int) < self.roadmap@.len() && parent_map@.contains_key(queue@[k]),
                     goal_reached is None,
+                    forall|k: int| 0 <= k < start_connections@.len() ==> visited@[(#[trigger] start_connections@[k]) as int],
+                    forall|i: int| 0 <= i < visited@.len() && #[trigger] visited@[i] ==> queue@.contains(i as usize) || g_done.contains(i) || i == current_idx as int,
+                    bfs_done_ok(self.roadmap@, &**goal, visited@, g_done),
+                    forall|k: int| 0 <= k < neighbor_idx__k ==> 0 <= (#[trigger] self.roadmap@[current_idx as int].edges@[k]) < visited@.len() && visited@[self.roadmap@[current_idx as int].edges@[k] as int],   //@ neighbours_visited [C18]
                 decreases self.roadmap@[current_idx as int].edges@.len() - neighbor_idx__k,
 """, 'prm.solve.nb.loop', tags=['C18'])
 ann('fn solve', 'loop-body-start while#3', r"""
                     let ghost g_q0 = queue@;
+                    let ghost g_v0 = visited@;
                     proof { lemma_rm_edge_in_range(self.roadmap@, current_idx as int, neighbor_idx__k - 1); }
 """, 'prm.solve.nb.ghost')
 ann('fn solve', 'before /parent_map\.insert\(neighbor_idx, Some\(current_idx\)\);/', r"""
@@ -873,8 +1052,35 @@ ann('fn solve', 'loop-end while#3', r"""
                         assert forall|k: int| 0 <= k < queue@.len() implies (#[trigger] queue@[k] as int) < self.roadmap@.len() && parent_map@.contains_key(queue@[k]) by {
                             if k < g_q0.len() { assert(queue@[k] == g_q0[k]); }
                         }
+                        if visited@ != g_v0 {
+                            lemma_done_mark(self.roadmap@, &**goal, g_v0, visited@, g_done, neighbor_idx as int);
+                            assert(queue@[queue@.len() - 1] == neighbor_idx);
+                        }
+                        assert forall|i: int| 0 <= i < visited@.len() && #[trigger] visited@[i] implies queue@.contains(i as usize) || g_done.contains(i) || i == current_idx as int by {
+                            if i != neighbor_idx as int || visited@ == g_v0 {
+                                if g_v0[i] && g_q0.contains(i as usize) { let w = choose|w: int| 0 <= w < g_q0.len() && g_q0[w] == i as usize; assert(queue@[w] == i as usize); }
+                            }
+                        }
+                        assert forall|k: int| 0 <= k < neighbor_idx__k implies 0 <= (#[trigger] self.roadmap@[current_idx as int].edges@[k]) < visited@.len() && visited@[self.roadmap@[current_idx as int].edges@[k] as int] by {
+                            if k < neighbor_idx__k - 1 { assert(g_v0[self.roadmap@[current_idx as int].edges@[k] as int]); }
+                        }
                     }
 """, 'prm.solve.nb.end')
+ann('fn solve', 'before /let goal_node_idx = goal_reached\.ok_or\(PlanningError::NoSolutionFound\)\?;/', r"""
+        proof {
+            if goal_reached is None {
+                // the queue is empty: every visited milestone is finished, so the visited set is closed under roadmap edges
+                assert forall|i: int| 0 <= i < self.roadmap@.len() && #[trigger] visited@[i] implies g_done.contains(i) by {
+                    if queue@.contains(i as usize) { }
+                }
+                assert forall|i: int| 0 <= i < self.roadmap@.len() && start_conn(self.roadmap@, &*pd.space, &**vc, start_state, self.connection_radius, i) implies #[trigger] visited@[i] by {
+                    let w = choose|w: int| 0 <= w < start_connections@.len() && start_connections@[w] == i as usize;
+                    assert(visited@[start_connections@[w] as int]);
+                }
+                lemma_bfs_complete(self.roadmap@, &*pd.space, &**vc, start_state, self.connection_radius, &**goal, visited@, g_done);
+            }
+        }
+""", 'prm.solve.no_solution', tags=['C18'])
 ann('fn solve', 'before /Ok\(self\.reconstruct_path\(start_state, parent_map, goal_node_idx\)\)/', r"""
         proof {
             lemma_prm_path(*start_state, self.roadmap@, parent_map@, g_depth, start_connections@, goal_node_idx, &*pd.space, &**vc, self.connection_radius, rv(self.connection_radius));
